@@ -822,6 +822,10 @@ pub struct SixelImageHandler {
     imgs: lru::LruCache<u64, Vec<u8>>,
     size: usize,
     bg: Option<RGBA>,
+    /// cache budget of this handler (verification hook, always `IMAGE_CACHE_SIZE` unless a
+    /// handler is built by `verif_c12::with_cache_size`)
+    #[cfg(feature = "verif-hooks")]
+    verif_cache_size: usize,
 }
 
 impl SixelImageHandler {
@@ -830,6 +834,8 @@ impl SixelImageHandler {
             imgs: lru::LruCache::unbounded(),
             size: 0,
             bg,
+            #[cfg(feature = "verif-hooks")]
+            verif_cache_size: IMAGE_CACHE_SIZE,
         }
     }
 }
@@ -967,7 +973,11 @@ impl ImageHandler for SixelImageHandler {
 
         self.size += sixel_image.len();
         self.imgs.put(img.hash(), sixel_image);
-        while self.size > IMAGE_CACHE_SIZE {
+        #[cfg(not(feature = "verif-hooks"))]
+        let cache_size = IMAGE_CACHE_SIZE;
+        #[cfg(feature = "verif-hooks")]
+        let cache_size = self.verif_cache_size;
+        while self.size > cache_size {
             let Some((_, lru_image)) = self.imgs.pop_lru() else {
                 break;
             };
